@@ -10,17 +10,40 @@ from .coqeval import Raw, term, Nat
 QUALS = [0, 10, 20, 30, 7, 13]
 
 
-# ------------------------------------------------------------------ numeric tables (exact rationals of doubles)
+# ------------------------------------------------------------------ numeric tables
+# The C++ computes p_q = pow(10, -q/10.0L) (p_0 = 0.9999) and the recombination probability
+# pow(10, -recombcost/10) in long double.  `pow` is external to the model: the tables are supplied as rationals
+# within 1e-15 (relative) of those values -- the exact decimal when the exponent is an integer, otherwise the
+# simplest continued-fraction approximant of the double with denominator < 10^10.  (Exact binary expansions of the
+# doubles would make the exact evaluation in Coq ~100x slower without changing any verdict: the comparison
+# tolerance is 1e-9.)
+def _pow10(e10):
+    """10^(-e10/10) as a rational"""
+    if e10 % 10 == 0:
+        return Fraction(1, 10 ** (e10 // 10))
+    x = 10.0 ** (-e10 / 10.0)
+    fr = Fraction(x).limit_denominator(10 ** 10)
+    assert abs(fr - Fraction(x)) <= Fraction(x) / 10 ** 15
+    return fr
+
+
 def phred_prob(q):
-    """error probability table of genotypecolumncostcomputer.cpp (p_0 = 0.9999, p_q = 10^(-q/10)) as the exact
-    rational of the IEEE double nearest to the long double the C++ computes (difference < 1.2e-16 relative)."""
     if q == 0:
-        return Fraction(0.9999)
-    return Fraction(10.0 ** (-q / 10.0))
+        return Fraction(9999, 10000)
+    return _pow10(q)
 
 
 def recomb_prob(rc):
-    return Fraction(10.0 ** (-rc / 10.0))
+    return _pow10(rc)
+
+
+def prior_fraction(x):
+    """a prior given to the implementation as a double -> the rational used by the model (simplest rational within
+    1e-16 relative; exact for dyadic values and for 1/3.0)"""
+    fr = Fraction(x).limit_denominator(10 ** 6)
+    if abs(fr - Fraction(x)) <= Fraction(x) / 10 ** 16:
+        return fr
+    return Fraction(x)
 
 
 # ------------------------------------------------------------------ instances
@@ -226,7 +249,7 @@ class Oracle:
                 gv = tuple(self.geno(i, a, ind) for ind in range(self.nind))
                 p = Fraction(1)
                 for ind in range(self.nind):
-                    p *= Fraction(self.inst["priors"][ind][c][gv[ind]])
+                    p *= prior_fraction(self.inst["priors"][ind][c][gv[ind]])
                 probs.append(p)
                 vecs.append(gv)
                 counts[gv] = counts.get(gv, 0) + 1
@@ -396,7 +419,7 @@ def inst_term(inst):
             a = "None" if al is None else ("(Some false)" if al == 0 else "(Some true)")
             p = qlit(phred_prob(q)) if al is not None else qlit(phred_prob(0))
             ents.append(f"Entry {rid} {smp} {a} {p}")
-        pri = coq_list([coq_list([qlit(Fraction(x)) for x in inst["priors"][ind][c]]) for ind in range(inst["nind"])])
+        pri = coq_list([coq_list([qlit(prior_fraction(x)) for x in inst["priors"][ind][c]]) for ind in range(inst["nind"])])
         cterms.append(f"Column {coq_list(ents)} {pri} {qlit(recomb_prob(inst['recomb'][c]))}")
     trios = coq_list([f"({f}, {m}, {ch})" for f, m, ch in inst["trios"]])
     return f"(Inst (Ped {inst['nind']} {trios}) {coq_list(cterms)})"
